@@ -229,7 +229,10 @@ func runSelftest(args []string) int {
 			fmt.Printf("selftest binding %s: corrupted event %d rejected\n", name, hit)
 		}
 	}
-	corrupt("flip-output-byte", func(e map[string]any) bool { o, _ := e["out"].([]any); return e["ev"] == "marshal" && e["det"] == true && len(o) > 2 },
+	corrupt("flip-output-byte", func(e map[string]any) bool {
+		o, _ := e["out"].([]any)
+		return e["ev"] == "marshal" && e["det"] == true && len(o) > 2
+	},
 		func(e map[string]any) { o := e["out"].([]any); o[1] = float64(int(o[1].(float64)) ^ 1) })
 	corrupt("wrong-size", func(e map[string]any) bool { return e["ev"] == "size" }, func(e map[string]any) { e["n"] = e["n"].(float64) + 1 })
 	corrupt("drop-unknown", func(e map[string]any) bool {
